@@ -463,6 +463,65 @@ def _plain_publisher(pkg):
     return run
 
 
+def _queue_generator(E):
+    """async_generator_from_queue (the source behind observable_from_queue, both Rx packages): yields the queued values in
+    order, each once, until the stop value; while it waits on an empty queue a cancellation is NOT an end of stream - it
+    propagates (a cancelled stream must not be completed on the wire)."""
+    E.import_module('asyncio')
+    AG = 'rsocket/streams/helpers.py::async_generator_from_queue'
+    q = E.call(E.import_module('asyncio').getattr(E, 'Queue'), [])
+    stop = SOpaque('sentinel', 'stop-value') if E.path.choice(2, 'stop-value') == 1 else None
+    vals = [SOpaque('payload', 'q%d' % i) for i in range(2)]
+    how = E.path.choice(2, 'then')            # 0: the stop value is queued; 1: nothing more arrives and the consumer is cancelled
+    for v in vals:
+        E.call(E.getattr(q, 'put_nowait'), [v])
+    if how == 0:
+        E.call(E.getattr(q, 'put_nowait'), [stop])
+
+    def on_suspend(E_, what):
+        if what[0] == 'queue.get':
+            E_.throw('CancelledError')
+        return None
+    E.suspend_hook = on_suspend
+    g = E.call(E.lookup(AG), [q] if stop is None else [q, stop])
+    out = []
+    try:
+        E.run_generator(g, lambda v: out.append(v))
+    except PyExc as e:
+        E.cover('cancelled-on-empty-queue')
+        E.prove('queue_generator:only_a_cancellation_escapes_and_only_when_nothing_is_queued', how == 1 and e.value.cls.name == 'CancelledError')
+        E.prove('queue_generator:everything_queued_before_was_yielded_in_order', len(out) == 2 and out[0] is vals[0] and out[1] is vals[1])
+        return
+    E.cover('ended')
+    E.prove('queue_generator:ends_normally_only_at_the_stop_value[a cancelled wait is not an end of stream]', how == 0)
+    E.prove('queue_generator:yields_exactly_the_values_before_the_stop_value_in_order', len(out) == 2 and out[0] is vals[0] and out[1] is vals[1])
+
+
+harness('c20.queue_generator', ['C20', 'C09', 'C06'], functions=['rsocket/streams/helpers.py::async_generator_from_queue'],
+        assumptions=['asyncio.Queue.get on an empty queue suspends; a cancelled task gets CancelledError there'])(_queue_generator)
+
+
+def _observable_from_queue(pkg):
+    P = PKGS[pkg]
+    BP = P['dir'] + 'back_pressure_publisher.py::'
+
+    def run(E):
+        E.import_module('asyncio')
+        q = E.call(E.import_module('asyncio').getattr(E, 'Queue'), [])
+        feedback = SOpaque('subject', 'feedback')
+        seen = []
+        gen = SOpaque('iterator', 'queue-generator')
+        made = SOpaque('observable', 'observable')
+        E.stubs['rsocket/streams/helpers.py::async_generator_from_queue'] = lambda E_, f, a, k: (seen.append(('gen', list(a), dict(k))), gen)[1]
+        E.stubs[BP + 'observable_from_async_generator'] = lambda E_, f, a, k: (seen.append(('obs', list(a))), made)[1]
+        r = E.call(E.lookup(BP + 'observable_from_queue'), [q, feedback])
+        E.cover('built')
+        E.prove('observable_from_queue:the_queue_generator_of_exactly_this_queue_drives_a_credit_aware_observable_with_this_feedback',
+                len(seen) == 2 and seen[0][0] == 'gen' and seen[0][1][0] is q and seen[1][0] == 'obs' and seen[1][1][0] is gen
+                and seen[1][1][1] is feedback and r is made)
+    return run
+
+
 from pyvc.engine import Builtin  # noqa: E402
 
 
@@ -488,6 +547,13 @@ def _aio_next(pkg, fn='from_async_event_iterator'):
         events = []          # (kind, payload)   kind: N element, C completed, E error notification, X source raised
 
         def anext(E_, o, m, a, k):
+            if E_.path.choice(2, 'requester-cancels-while-the-sender-waits-for-the-source') == 1 and 'cancelled_at' not in st:
+                # the requester cancelled (feedback completed) inside a credited batch: asyncio delivers a requested task
+                # cancellation at this await; whatever the adapter does instead, nothing more may reach the observer
+                E_.call(E_.getattr(backpressure, 'on_completed'), [])
+                st['cancelled_at'] = len(log.calls)
+                if tasks[0][0].attrs['cancel_requested']:
+                    E_.throw('CancelledError')
             kind = 'NCEX'[E_.path.choice(4, 'item-kind')]
             if kind == 'N':
                 v = SOpaque('payload', 'v%d' % len(events))
@@ -519,11 +585,16 @@ def _aio_next(pkg, fn='from_async_event_iterator'):
         def sigs():
             return [(c[1], c[2]) for c in log.calls[st['c0']:] if c[0] is observer]
 
+        def no_signal_after_cancel():
+            return 'cancelled_at' not in st or not [c for c in log.calls[st['cancelled_at']:] if c[0] is observer]
+
         def inv(ctx):
             if ctx.phase != 'step':
                 return []
             E.cover('iteration')
             new_ev = events[st['e0']:]
+            if 'cancelled_at' in st:
+                return [('nothing reaches the observer after the requester cancelled [also inside a credited batch]', no_signal_after_cancel())]
             out = [('one item taken per unit of credit', len(new_ev) == 1)]
             if len(new_ev) == 1:
                 out.append(('the credit loop continues only after an element [a terminal item ends the task]', new_ev[0][0] == 'N'))
@@ -547,6 +618,7 @@ def _aio_next(pkg, fn='from_async_event_iterator'):
         except PyExc as e:
             E.cover('cancelled-waiting-for-credit')
             E.prove('aio_next:only_cancellation_escapes_the_sender_task', e.value.cls.name == 'CancelledError')
+            E.prove('aio_next:nothing_reaches_the_observer_after_the_requester_cancelled', no_signal_after_cancel())
             ctx = E.path.ghost.get('loops', {}).get((FN, 1))
             if ctx is not None:
                 E.prove('aio_next:events_forwarded_for_one_credit_bounded_by_it', I(ctx.k) <= I(n))
@@ -555,6 +627,9 @@ def _aio_next(pkg, fn='from_async_event_iterator'):
         ctx = E.path.ghost.get('loops', {}).get((FN, 1))
         if ctx is not None:
             E.prove('aio_next:events_forwarded_for_one_credit_bounded_by_it', I(ctx.k) <= I(n))
+        if 'cancelled_at' in st:
+            E.prove('aio_next:nothing_reaches_the_observer_after_the_requester_cancelled', no_signal_after_cancel())
+            return
         # the task ended on its own: in an arbitrary iteration (st['e0'], st['c0'] mark its start) a terminal item was taken
         new_ev = events[st['e0']:] if 'e0' in st else events
         E.prove('aio_next:the_task_ends_only_on_a_terminal_item', len(new_ev) == 1 and new_ev[0][0] != 'N')
@@ -730,6 +805,9 @@ for _pkg in PKGS:
     harness('c20.%s.plain_observable_publisher' % _pkg, ['C20', 'C06'], functions=[_d + 'back_pressure_publisher.py::observable_to_publisher',
             _d + 'back_pressure_publisher.py::BackPressurePublisher.__init__', _d + 'back_pressure_publisher.py::InternalBackPressurePublisher.subscribe',
             _d + 'back_pressure_publisher.py::from_async_event_generator'], assumptions=RXA)(_plain_publisher(_pkg))
+    harness('c20.%s.observable_from_queue' % _pkg, ['C20'], functions=[_d + 'back_pressure_publisher.py::observable_from_queue'],
+            assumptions=RXA + ['async_generator_from_queue and observable_from_async_generator through their contracts '
+                               '(c20.queue_generator, c20.*.aio_next.async_generator)'])(_observable_from_queue(_pkg))
     harness('c20.%s.aio_next' % _pkg, ['C20', 'C06'], functions=[_d + 'back_pressure_publisher.py::from_async_event_iterator'],
             assumptions=RXA + ['async_range through its contract (c06.async_range)'])(_aio_next(_pkg))
     harness('c20.%s.aio_next.async_generator' % _pkg, ['C20', 'C06'], functions=[_d + 'back_pressure_publisher.py::observable_from_async_generator'],
